@@ -404,3 +404,17 @@ M('seed-C07-prev_id-only-without-state', ['C02', 'C07'], Z, "                sel
 M('seed-C05-balanced-readiness-precedence', ['C04', 'C05'], Z, "                        out_do_send and (requested or ephemeral),", "                        out_do_send and requested or ephemeral,", ['C04.R2', 'C05.R1'])
 M('recv-D9-shape', ['C01'], Z, "                self.prev_id = max(self.prev_id, min_recv_id - 1)  # a newer id may have been adopted", "                pass  # a newer id may have been adopted", ['C01.R9'])
 M('recv-timeout-rewinds', ['C01', 'C02'], Z, "                self.prev_id = max(self.prev_id, min_recv_id - 1)  # a newer id may have been adopted", "                self.prev_id = min_recv_id - 2  # a newer id may have been adopted", ['C01.R9', 'C02.R2'])
+M('seed2-C06-required-output-never-evicted', ['C04', 'C06'], Z, "                if t_last < t_min:  # if connection timed out then remove it from further consideration", "                if t_last < t_min and client_id not in self.outs_required:  # if connection timed out then remove it from further consideration", ['C04.R5', 'C06.R4'])
+M('seed2-C02-reset-only-on-topic-message', ['C01', 'C02', 'C03'], Z, "                        elif res and not balance:\n                            for s in sendervs:", "                        elif res and topic and not balance:\n                            for s in sendervs:", ['C01.R2', 'C02.R8', 'C03.R9'])
+M('seed2-C01-new_recv-aliases-template', ['C01', 'C02', 'C03', 'C07'], Z, "            else:\n                recvd = recvd_new.copy()\n\n            self.recvd = recvd", "            else:\n                recvd = recvd_new  # informative topics message only, nothing to store\n\n            self.recvd = recvd", ['C01.R8', 'C02.R8', 'C03.R9', 'C07.R6'])
+M('seed2-C05-shared-unique-id', ['C04', 'C05'], Z, "            self.unique_id   = rndstr(12, 64)  # unique id for connection", "            self.unique_id   = client_id  # unique id for connection", ['C04.R6', 'C05.R7'])
+M('seed2-C04-stall-gate-per-client-id', ['C04'], Z, "                elif not requested and not ephemeral:  # if at least one non-ephemeral connection hasn't requested yet then we don't send\n                    do_send = False", "                elif client_id not in client_ids:  # if at least one non-ephemeral connection hasn't requested yet then we don't send\n                    do_send = False", ['C04.R2'])
+M('seed2-C12-duplicate-id-partial', ['C12'], CLI, "    for _, config, _ in filters:  # error on duplicate ids\n        if config.id in config_by_id:", "    for _, config, _ in filters[:1]:  # error on duplicate ids\n        if config.id in config_by_id:", ['C12.R1'])
+M('seed2-C13-float-compare', ['C13'], RL, "        if (logfiles := self.logfiles) and int(ts * 1_000_000) <= (last_us := int(logfiles[-1].timestamp * 1_000_000)):", "        if (logfiles := self.logfiles) and ts <= logfiles[-1].timestamp and (last_us := int(logfiles[-1].timestamp * 1_000_000)) is not None:", ['C13.R1'])
+M('seed2-C17-box-colour-cached', ['C17'], UT, "        elif frame.is_bgr:\n            c = c[::-1]\n", "        elif frame.is_bgr:\n            c = c[::-1]\n        xform.cvcolor = c\n", ['C17.R4'])
+M('seed2-C10-pickle-drops-image', ['C10'], FR, "        return (Frame.unreduce, (image := self.__image, self.__data, self.__jpg, self.__shapef,", "        return (Frame.unreduce, (image := (self.__image if not self.__jpg else False), self.__data, self.__jpg, self.__shapef,", ['C10.R7'])
+M('seed2-C15-mask-after-strip', ['C15'], VO, "            logger.info(f'video create: {hide_uri_users_and_pwds(output)[7:]}  ({self.fps:.1f} fps)')", "            logger.info(f'video create: {hide_uri_users_and_pwds(output[7:])}  ({self.fps:.1f} fps)')", ['C15.R1'])
+M('seed2-C09-ensure-ascii-false', ['C09'], MQ, "data = json_dumps(frame.data, separators=(',', ':')).encode() if frame.data else None", "data = json_dumps(frame.data, separators=(',', ':'), ensure_ascii=False).encode() if frame.data else None", ['C09.R2'])
+M('seed2-C16-bad-file-fails-open', ['C16'], CF, "        except Exception as e:\n            print(f\"Warning: Failed to read allowlist from {path}: {e}\")\n    \n    # Try environment variable", "        except Exception as e:\n            print(f\"Warning: Failed to read allowlist from {path}: {e}\")\n            return None\n    \n    # Try environment variable", ['C16.R3'])
+M('seed2-C14-restore-promotes-tmp', ['C14'], RL, "        if head is not None:\n            if not os.path.exists(head):  # exists() and not isfile() because we want to error on a directory", "        if head is not None:\n            if os.path.isfile(head + '.tmp'):\n                os.rename(head + '.tmp', head)\n\n            if not os.path.exists(head):  # exists() and not isfile() because we want to error on a directory", ['C14.R1'])
+M('seed-C08-propagated-error-announced-clean', ['C08'], F, "                        is_exc = isinstance(sys.exc_info()[1], Exception)\n", "                        is_exc = isinstance(sys.exc_info()[1], Exception) and not isinstance(sys.exc_info()[1], Filter.PropagateError)\n", ['C08.R1', 'C08.R1b'])
